@@ -88,7 +88,8 @@ def _gen_one(args):
     seed, idx, with_fault = args
     import random
     rng = random.Random('C04-%s-%d' % (seed, idx))
-    ds = defsets.gen_defset(rng)
+    # every tenth set carries all the rare features at once, every tenth + 1 a wide entity
+    ds = defsets.gen_defset(rng, force=('shadow', 'order', 'huge', 'libnames') if idx % 10 == 0 else ('wide', 'order') if idx % 10 == 1 else ())
     if with_fault:
         defsets.inject_fault(rng, ds)
     base = os.path.join(common.WORK, 'defs', 'c04-%d-%d' % (os.getpid(), idx))
